@@ -722,6 +722,8 @@ def collections(I, st, frame, t, name, self_ty, tys, trait, method, args, ev):
         return mkpred("is_empty", D(a0))
     if method in ("contains", "contains_key") and len(args) == 2:
         return mkpred("contains", D(a0), D(args[1]))
+    if method == "with_capacity" and tys in ("Vec", "HashMap", "HashSet", "String", "VecDeque"):
+        return V("Const(empty)")      # the capacity (often `other.len()`) is not content
     if method in ("new", "with_capacity", "default") and not any(not a.is_empty() and const_of(a) is None
                                                                    for a in args):
         if tys in ("Vec", "HashMap", "HashSet", "BTreeMap", "BTreeSet", "String", "VecDeque"):
